@@ -1,0 +1,77 @@
+//go:build verif
+
+package builder
+
+// Contracts for the govc verifier (/verif). This file contains comments only;
+// it does not change the compiled package.
+
+// ---------------------------------------------------------------------------
+// Only complete, successful results reach the Action Cache (C09)
+//
+// ufb("statusok", s): the status proto s is OK (see /verif/stubs/grpc.spec).
+
+//@ func executeResponseIsSuccessful
+//@   props C09
+//@   requires response != nil && response.Result != nil
+//@   ensures ok-status-and-exit-code-zero: r0 == (ufb("statusok", response.Status) && response.Result.ExitCode == 0)
+
+// The first error wins and an attached error makes the response non-OK.
+//@ func attachErrorToExecuteResponse
+//@   props C09
+//@   requires response != nil && err != nil
+//@   ensures first-error-wins: !old(ufb("statusok", response.Status)) ==> response.Status == old(response.Status)
+//@   ensures response-carries-an-error: !ufb("statusok", response.Status)
+
+// The Action Cache is written only for a cacheable action with an OK status
+// and exit code zero, after the base executor returned.
+//@ func (*cachingBuildExecutor).Execute
+//@   props C09
+//@   at call Put#1 assert only-cacheable-successful-results-are-cached:
+//@             !request.Action.DoNotCache && ufb("statusok", response.Status) && response.Result.ExitCode == 0
+
+// If flushing storage fails, the response carries an error and no longer
+// advertises output digests.
+//@ func (*storageFlushingBuildExecutor).Execute
+//@   props C09
+//@   ensures flush-error-is-reported: err != nil ==> !ufb("statusok", r0.Status)
+//@   ensures flush-error-prunes-digests: err != nil && r0.Result != nil ==>
+//@             r0.Result.OutputFiles == nil && r0.Result.OutputDirectories == nil &&
+//@             r0.Result.StdoutDigest == nil && r0.Result.StderrDigest == nil
+//@   ensures flush-error-prunes-server-logs: err != nil ==> r0.ServerLogs == nil
+
+// ---------------------------------------------------------------------------
+// Worker thread: one action at a time, honest state, safe shutdown (C08)
+//
+// A BuildClient is confined to one goroutine. Object invariant: the
+// cancellation function and the update channel are set together.
+
+//@ pred bcInv(bc *BuildClient) := (bc.executionCancellation == nil) == (bc.executionUpdates == nil)
+//@ pred isIdle(bc *BuildClient) := typeis(bc.request.CurrentState.WorkerState, *remoteworker.CurrentState_Idle)
+
+//@ func (*BuildClient).stopExecution
+//@   props C08
+//@   requires bcInv(bc) && bc.request.CurrentState != nil
+//@   ensures nothing-is-executing: bc.executionCancellation == nil && bc.executionUpdates == nil
+//@   ensures reports-idle: isIdle(bc)
+
+//@ func (*BuildClient).applyExecutionUpdate
+//@   props C08
+//@   requires bcInv(bc) && bc.request.CurrentState != nil && bc.executionCancellation != nil
+//@   ensures inv: bcInv(bc)
+//@   ensures finished-means-cleaned-up: update == nil ==> bc.executionCancellation == nil && bc.executionUpdates == nil
+//@   ensures update-is-reported-verbatim: update != nil ==>
+//@             typeis(bc.request.CurrentState.WorkerState, *remoteworker.CurrentState_Executing_) &&
+//@             as(bc.request.CurrentState.WorkerState, *remoteworker.CurrentState_Executing_).Executing == update
+
+// Before a new action is started the previous one has been cancelled and has
+// fully stopped; the reported state names the new action.
+//@ func (*BuildClient).startExecution
+//@   props C08
+//@   requires bcInv(bc) && bc.request.CurrentState != nil && executionRequest != nil
+//@   at call WithCancel#1 assert previous-action-fully-stopped: bc.executionCancellation == nil && bc.executionUpdates == nil
+//@   ensures inv: bcInv(bc)
+//@   ensures started-action-is-reported: r0 == nil ==>
+//@             bc.executionCancellation != nil &&
+//@             typeis(bc.request.CurrentState.WorkerState, *remoteworker.CurrentState_Executing_) &&
+//@             as(bc.request.CurrentState.WorkerState, *remoteworker.CurrentState_Executing_).Executing.ActionDigest == executionRequest.ActionDigest
+//@   ensures failed-start-changes-nothing: r0 != nil ==> unchanged()
